@@ -60,6 +60,10 @@ var propConfigs = map[string]propConfig{
 			"messages received from a peer are real messages (channel invariant checked at every send in a verified function; the remote transports' deserializers are trusted to return a message or an error)",
 			"hangs, goroutine leaks, Close() returning and timing coincidences are not decided",
 		}},
+	"C15": {ID: "C15", Level: "proof",
+		Bounded: []boundedCheck{{Name: "transport.bytesToInt", Pkg: "transport", Source: "transport_bytestoint_test.go.txt", Target: "verif_bounded_bytestoint_test.go", Run: "^TestBoundedBytesToInt$", Bound: "len(b) == 3, all 2^24 inputs; round trip with intToBytes for all 24-bit lengths", Stands: "bytesToInt#ensures[big-endian-24] (trusted in the deductive part)"}},
+		Explain: "Rawsocket framing and handshake under contract: intToBytes encodes a 24-bit length big-endian (proved), byteToLength/fitRecvLimit implement the 2^(9+n) length code and pick the least code that fits (proved with a loop invariant), sendHandler writes header {0, L2, L1, L0} with the exact length followed by exactly the serialised bytes or nothing (oversized for the peer's announced limit or the 24-bit field, or unserialisable), recvHandler decodes only type-0 frames within its own announced limit, forwards only decoded messages, answers PING with a PONG header of the same length and copies exactly that many bytes, and ends the connection on oversized or reserved-type frames; serverHandshake/clientHandshake create a peer only for a well-formed exchange, with the negotiated serializer and both length limits.",
+		Assume: []string{"net.Conn, io.ReadFull and io.CopyN behave as documented (trusted models); the serializers return bytes / a message or an error (interface contracts; codecs are third-party)", "bytesToInt is covered by a bounded exhaustive check, not by proof (listed under bounded)", "websocket framing (gorilla) and the 'same behaviour over every transport' half of the property are not covered", "concurrent interleaving of the PONG written by recvHandler with frames written by sendHandler on the same connection is not decided"}},
 	"C16": {ID: "C16", Level: "proof",
 		Explain: "Sequential core of reply routing in the client: a reply is offered only on the channel registered under the request id the reply itself carries (runReceiveFromRouter call-site universal + runSignalReply send-site universal), and a waiter gets a real message or an error; on context cancellation a CANCEL naming this call is sent to the router.",
 		Assume: []string{"schedule-dependent parts (progress handler never after return, replies coinciding with timeouts, handler serialisation) are not decided", "context.Context.Err() is non-nil once Done() has fired (listed assumption)"}},
